@@ -479,6 +479,12 @@ class Program:
                     if d.kind == "module":
                         d = self.resolve_name(d.obj, seg)
                         continue
+                    if d.kind == "func":
+                        if seg == "<locals>":
+                            continue
+                        if seg in d.obj.nested:
+                            d = Def("func", d.obj.nested[seg], d.obj.module, seg)
+                            continue
                     return None
                 return d
         return None
